@@ -100,6 +100,20 @@ def constructor_dtypes(prog: Program, cd, rep, rule="staging-dtype"):
                     stored.setdefault(v.attr, t.dt)
         sn = init.self_name or "self"
         btype = lambda nm, _m=c.module: (prog.codec(_m, nm) or (None, None))[1]
+        # a conversion TO a sub-array dtype (`x.astype(VEC3F.btype)`, `np.asarray(x, dtype=VEC3F.btype)` - the `.base` forgotten)
+        # appends the dtype's shape to the array: a (3,) vector becomes (3, 3), and the record is written longer than nBytes says
+        for v in ast.walk(init.node):
+            d_ = None
+            if isinstance(v, ast.Call) and norm(v.func) in ("np.array", "np.asarray", "numpy.array", "numpy.asarray", "np.ascontiguousarray"):
+                d_ = next((k.value for k in v.keywords if k.arg == "dtype"), v.args[1] if len(v.args) > 1 else None)
+            elif isinstance(v, ast.Call) and isinstance(v.func, ast.Attribute) and v.func.attr == "astype" and v.args:
+                d_ = v.args[0]
+            if isinstance(d_, ast.Attribute) and d_.attr == "btype" and isinstance(d_.value, ast.Name):
+                dt_ = btype(d_.value.id)
+                if dt_ is not None and tuple(getattr(dt_, "shape", ()) or ()) and dt_.kind != "V":
+                    rep.fail(rule, c.module.path.name, f"{c.name}.__init__", v, f"`{norm(v)[:70]}` converts to the sub-array type of {d_.value.id} (shape {tuple(dt_.shape)}), which appends that shape to the array: an argument of "
+                             f"exactly the required shape is stored with one dimension more and encodes to more bytes than nBytes declares (the scalar type is `{d_.value.id}.btype.base`)",
+                             construct=f"{c.name}.__init__ converts to sub-array dtype {d_.value.id}.btype")
         for st in ast.walk(init.node):
             if not (isinstance(st, ast.Assign) and len(st.targets) == 1 and isinstance(st.targets[0], ast.Attribute) and isinstance(st.targets[0].value, ast.Name)
                     and st.targets[0].value.id == sn and st.targets[0].attr in stored):
